@@ -100,6 +100,7 @@ class FakeSock:
         self.closed = False
         self.eof_sent = False
         self.outstanding = None  # (rpc, args) of the request awaiting a response
+        self.reply_cb = None
         self.greenlet = None
 
     def makefile(self, mode="rw"):
@@ -266,7 +267,12 @@ class QsSim:
         if req is None:
             self.hub_errors.append(("HarnessError", f"response without request on {sock.name}: {data[:80]}"))
             return
-        self._notify(self.observer.on_resp, sock.name, req[0], req[1], json.loads(data), self.clock.time())
+        payload = json.loads(data)
+        self._notify(self.observer.on_resp, sock.name, req[0], req[1], payload, self.clock.time())
+        cb = sock.reply_cb
+        if cb is not None:  # an in-process RPC client (nserve) is parked on this response
+            sock.reply_cb = None
+            cb(payload)
 
     def _on_shutdown(self, sock):
         if self.stopping:
